@@ -71,6 +71,16 @@ CHECKS = {
         text="Generated CAN bindings of reference size 57..200 bits (bulk in any field, nested struct, array or enum) and with variable-size fields at any depth; DBC and C generation must fail and emit nothing for non-fitting messages, and every signal in successfully generated DBC/C output must lie inside its message without overlap.",
         note="Trusted: vlib/reflayout.py for the size; an exception counts as failure.",
         ref="4/C14"),
+    "C15": dict(
+        technique="metamorphic property-based testing on declaration-permuted twin schemas, per back end",
+        text="Generated schema S and its twin S' (fields of every struct re-ordered, ids fixed): packed layouts, generated DBC files, Python codec bytes (also == reference) must be identical; twin programs are additionally compiled for the C and C++ back ends where those engines are built.",
+        note="Trusted: permutation generator; the reference codec for the absolute order. Compiled twins are few (each needs compilations).",
+        ref="4/C15"),
+    "C17": dict(
+        technique="differential testing across fresh subprocesses, hash seeds and generated in-process operation histories",
+        text="Each generated (schema, generator) is rendered in a fresh process under PYTHONHASHSEED=0, in a fresh process under another seed, at the end of a generated history of parse/generate operations in a long-lived worker, again on the re-parsed schema and twice more on the same FcpV2 object; all {path: contents} maps must be identical (documented C++ stamp line blanked).",
+        note="Hash seeds are sampled (3 per schema). Worker processes are real interpreters started with the chosen PYTHONHASHSEED.",
+        ref="4/C17"),
 }
 
 PENDING = {}
